@@ -19,3 +19,18 @@ claim("C04", "exploration", "property-based testing (forward: oracle-balanced in
 claim("C18", "exploration", "property-based testing: statistics recomputed from returned rows (API stats argument and CLI .stats file)",
       "Generated runs (incl. malformed rows, batch partitions, demoting thresholds, CLI path) whose reported counters are compared with counts recomputed from the rows.",
       PIPE_NOTE + "; 'not solved before the MCS stage' is derived from final row labels", "DESIGN.md 4/C18")
+claim("C05", "exploration", "property-based testing over row sequences x input forms (list/dict/CSV/JSON/CLI) with an independent validity oracle; enumeration of every malformed class x position x form",
+      "Generated sequences mixing valid and malformed rows through every input form and batch layout; output must have one row per input, each describing its input (malformed: declined with issue), valid rows equal to their run-alone row, CLI pass-through tags aligned.",
+      PIPE_NOTE + "; row validity decided independently (one '>>', both sides parse)", "DESIGN.md 4/C05")
+claim("C06", "exploration", "metamorphic property-based testing: same reactions alone / batched / permuted / re-run / with 2-16 workers; stats additivity",
+      "Generated reaction sets executed in 5-6 contexts; row keys must be identical and statistics additive and partition-independent. Mismatches must reproduce in a fresh process. Scheduling is varied through worker counts, not controlled.",
+      PIPE_NOTE + "; cases with MCS timeout texts are inconclusive", "DESIGN.md 4/C06")
+claim("C13", "exploration", "differential property-based testing against the threshold-0 run with thresholds constructed on both sides of every observed confidence",
+      "Each generated batch is re-run at thresholds equal to, one ulp below/above and 0.001 below/above every confidence it produced; only MCS rows may change, exactly as conf >= t dictates, and a demotion must name t.",
+      PIPE_NOTE, "DESIGN.md 4/C13")
+claim("C14", "exploration", "metamorphic property-based testing: equivalent respellings / molecule permutations of composition-determined reactions",
+      "Base reactions with input-balanced or rule-based outcome and 4-8 oracle-verified equivalent spellings each must get the same verdict and (template choice aside) the same added molecules.",
+      PIPE_NOTE, "DESIGN.md 4/C14")
+claim("C15", "exploration", "round-trip property-based testing of remove_atom_mapping against canonical-SMILES identity; enumeration of all corpus molecules and periodic species in 5 spellings",
+      "Every closed-shell corpus molecule and periodic species in five deterministic mapped/explicit spellings plus Hypothesis spellings (drawn atom order, maps, kekule, explicit bonds/H, padding) must come back as the same molecule without maps; pipeline outputs must be map-free. One genuine defect class (hypervalent explicit-H atoms) is a listed known finding.",
+      TB, "DESIGN.md 4/C15")
